@@ -627,6 +627,26 @@ func (s *sg) declare(typ string, rhs func()) string {
 	rhs()
 	s.vars[typ] = append(s.vars[typ], name)
 	s.o.label("decl:" + typ)
+	// a task may override the declared default with a predefined var of the same type
+	if s.pick(8, "override") == 0 {
+		v := VarSpec{Name: name}
+		switch typ {
+		case "int":
+			v.Type, v.Val = "int", strconv.Itoa(rapid.IntRange(1, 50).Draw(s.t, "ovInt"))
+		case "float":
+			v.Type, v.Val = "float", rapid.SampledFrom([]string{"0.75", "12.5"}).Draw(s.t, "ovFloat")
+		case "dur":
+			v.Type, v.Val = "duration", rapid.SampledFrom([]string{"1000000000", "60000000000"}).Draw(s.t, "ovDur")
+		case "str":
+			v.Type, v.Val = "string", rapid.SampledFrom([]string{"override", "o'v"}).Draw(s.t, "ovStr")
+		case "bool":
+			v.Type, v.Val = "bool", "true"
+		}
+		if v.Type != "" {
+			s.tmpl = append(s.tmpl, v)
+			s.o.label("decl:overridden-default")
+		}
+	}
 	return name
 }
 
@@ -1204,7 +1224,7 @@ func genScript(r *kit.Rec, t *rapid.T, law string) ScriptCase {
 	s.edge = rapid.SampledFrom([]string{"stream", "stream", "batch"}).Draw(t, "edge")
 	if rapid.IntRange(0, 9).Draw(t, "dbrp") == 0 {
 		s.o.emit(tk{s: "dbrp", cls: "var"})
-		s.o.emit(tk{s: encRef(rapid.SampledFrom([]string{"telegraf", "my db", "d.b"}).Draw(t, "dbrpDB")), cls: "lit-reference"})
+		s.o.emit(tk{s: encRef(rapid.SampledFrom([]string{"telegraf", "my db", "d.b", `q"db`}).Draw(t, "dbrpDB")), cls: "lit-reference"})
 		s.o.emit(tk{s: ".", cls: "dot"})
 		s.o.emit(tk{s: encRef(rapid.SampledFrom([]string{"autogen", "rp one"}).Draw(t, "dbrpRP")), cls: "lit-reference"})
 		s.o.label("stmt:dbrp")
